@@ -160,7 +160,8 @@ func checkC19(c *core.Ctx) {
 		if !ok {
 			if i < len(hand) {
 				c.Internal("hand-written document does not parse: %q", clip(text, 300))
-				return
+				// (keep going: a violation found on the remaining cases takes precedence over this)
+				continue
 			}
 			continue
 		}
